@@ -53,7 +53,7 @@ theorem processDone_commits (cfg : Cfg) (size : C → Nat) (cur : C) (env : Nat 
     · exact ih g rs q
     · split
       · split
-        · rw [ih]; exact saveExtra_commits cfg g
+        · rw [ih]; exact saveExtra_commits cfg { g with timeouts := g.timeouts + 1 }
         · simp [RRes.side]
         · cases hc : check cfg size cur (env i) g rs.gu with
           | mk o rest =>
